@@ -100,4 +100,29 @@ def run(ctx):
         okb = (isinstance(t.ops[0], ast.GtE) and bound == 2 ** 31) or (isinstance(t.ops[0], ast.Gt) and bound == 2 ** 31 - 1)
     ctx.ob('R12.3', 'writer.check_32:raises-for-values-that-do-not-fit', okb and 'raise OverflowError' in src(ck),
            'the largest i32 is 2**31 - 1: `%s`' % (norm(tests[0].test) if tests else '?'), wr.loc(ck))
+    from . import findings2 as _f2
+    _f2.delta_capacity(ctx, 'R12.4')
+    r125(ctx)
     ctx.exhaustive = True
+
+
+def r125(ctx, rule='R12.5'):
+    """cencoding.write_thrift: a value of a type none of the isinstance arms knows must be refused, not cast to dict
+    (numpy integers are not `int`) - known finding K12d"""
+    import ast as _ast
+    from ..model import norm as _norm
+    m = ctx.repo['cencoding']
+    f = m.func('write_thrift')
+    loops = [x for x in _ast.walk(f) if isinstance(x, _ast.For)]
+    ok = False
+    for lp in loops:
+        chain = [st for st in lp.body if isinstance(st, _ast.If) and 'isinstance(val, bool)' in _norm(st.test)]
+        if chain:
+            node = chain[0]
+            while node.orelse and len(node.orelse) == 1 and isinstance(node.orelse[0], _ast.If):
+                node = node.orelse[0]
+            last = node.orelse
+            ok = any(isinstance(x, _ast.Raise) for st in last for x in _ast.walk(st))
+    ctx.ob(rule, 'cencoding.write_thrift:unknown-value-type-refused', ok,
+           'the final else of the type dispatch does `write_thrift(<dict>val, output)` for anything that is not bool/int/float/'
+           'bytes/str/list/ThriftObject', m.loc(f))
